@@ -50,3 +50,28 @@ package fhir
 //@   ensures fits(fdiv(tInst(t), 1000), int64(0)) ==> int(res.ValueUs) == fdiv(tInst(t), 1000)
 //@   ensures res.Timezone == tzS(t)
 //@   assigns nothing
+
+// C15: FHIR Integer from Go / FHIR unsigned integers: made exactly when the value fits an
+// int32, and then with that value; otherwise ErrIntegerDataLoss and no element
+//@ func tryNarrowInt32(v) (res, ok)
+//@   ensures ok == fits(int(v), res)
+//@   ensures ok ==> int(res) == int(v)
+//@   assigns nothing
+//@ func isLossyConversionToInt32(value) (res)
+//@   ensures res == (int(value) > 2147483647)
+//@   assigns nothing
+//@ func IntegerFromInt(value) (res, err)
+//@   ensures (err == nil) == (0 - 2147483648 <= int(value) && int(value) <= 2147483647)
+//@   ensures err == nil ==> res != nil && int(res.Value) == int(value)
+//@   ensures err != nil ==> res == nil && is(err, ErrIntegerDataLoss)
+//@   assigns nothing
+//@ func IntegerFromPositiveInt(value) (res, err)
+//@   ensures value != nil ==> (err == nil) == (int(value.Value) <= 2147483647)
+//@   ensures value != nil && err == nil ==> res != nil && int(res.Value) == int(value.Value)
+//@   ensures err != nil ==> res == nil && is(err, ErrIntegerDataLoss)
+//@   assigns nothing
+//@ func IntegerFromUnsignedInt(value) (res, err)
+//@   ensures value != nil ==> (err == nil) == (int(value.Value) <= 2147483647)
+//@   ensures value != nil && err == nil ==> res != nil && int(res.Value) == int(value.Value)
+//@   ensures err != nil ==> res == nil && is(err, ErrIntegerDataLoss)
+//@   assigns nothing
